@@ -289,6 +289,77 @@ M = [
 			}'''),
  ("C20-gostring-rounds", "align/align.go",
   '''		fmt.Fprintf(buf, "{%s,%s}:%v,\\n",''', '''		fmt.Fprintf(buf, "{%s,%s}:%.6g,\\n",'''),
+ # transient writes to inputs: undone before the call returns; only a concurrent observer (the "readers" units under the race detector) can see them
+ ("C12-revcomp-reverses-src-in-place-and-back", "sequtil/sequtil.go",
+  """func ReverseComplement(dst, src []byte) []byte {
+	for i := len(src) - 1; i >= 0; i-- {
+		dst = append(dst, complementByte(src[i]))
+	}
+	return dst
+}""",
+  """func ReverseComplement(dst, src []byte) []byte {
+	for i, j := 0, len(src)-1; i < j; i, j = i+1, j-1 {
+		src[i], src[j] = src[j], src[i]
+	}
+	defer func() {
+		for i, j := 0, len(src)-1; i < j; i, j = i+1, j-1 {
+			src[i], src[j] = src[j], src[i]
+		}
+	}()
+	for _, c := range src {
+		dst = append(dst, complementByte(c))
+	}
+	return dst
+}"""),
+ ("C13-pack-scratches-dst-prefix-and-back", "sequtil/sequtil.go",
+  """func DNATo2Bit(dst, src []byte) []byte {
+	dn := len(dst)
+""",
+  """func DNATo2Bit(dst, src []byte) []byte {
+	dn := len(dst)
+	if dn > 0 {
+		old, keep := dst, dst[dn-1]
+		old[dn-1] = 0
+		defer func() { old[dn-1] = keep }()
+		dst = append(append(make([]byte, 0, dn+len(src)/4+1), dst[:dn-1]...), keep)
+	}
+"""),
+ ("C08-global-touches-matrix", "align/global.go",
+  """	an, bn := len(a)+1, len(b)+1
+	blocks := make([]block, an*bn)
+	for i := range blocks {
+		ai, bi := i/bn, i%bn
+
+		// Edges of the matrix.
+		if ai == 0 && bi == 0 {
+			continue
+		}
+		if ai == 0 {
+			blocks[i].step = Insertion""",
+  """	an, bn := len(a)+1, len(b)+1
+	blocks := make([]block, an*bn)
+	if open, ok := m[[2]byte{Gap, Gap}]; ok {
+		m[[2]byte{Gap, Gap}] = open // normalise the entry
+	}
+	for i := range blocks {
+		ai, bi := i/bn, i%bn
+
+		// Edges of the matrix.
+		if ai == 0 && bi == 0 {
+			continue
+		}
+		if ai == 0 {
+			blocks[i].step = Insertion"""),
+ ("C20-symmetrical-rewrites-receiver", "align/align.go",
+  """	for k, v := range m {
+		result[k] = v
+		flip := [2]byte{k[1], k[0]}
+		if k[0] != k[1] {""",
+  """	for k, v := range m {
+		result[k] = v
+		m[k] = v
+		flip := [2]byte{k[1], k[0]}
+		if k[0] != k[1] {"""),
 ]
 def gen(name, path, old, new, text=None):
     src = open('/repo/'+path).read()
